@@ -213,13 +213,13 @@ fold_h!(fold_3x3x3, 3, 27, [3, 3, 3], 30);
 // @harness props=C05 tier=thorough group=f64 bounds=shape=[3,2,4],cells=0..7,fill={nan,0,-1,inf} timeout=1200
 fold_h!(fold_3x2x4, 3, 24, [3, 2, 4], 27);
 
-// @harness props=C05 tier=quick group=f64 bounds=shape=[1,2,1,3],cells=0..7,fill={nan,0,-1,inf} timeout=1200
+// @harness props=C05 tier=thorough group=f64 bounds=shape=[1,2,1,3],cells=0..7,fill={nan,0,-1,inf} timeout=1200
 fold_h!(fold_1x2x1x3, 4, 6, [1, 2, 1, 3], 9);
 
 // @harness props=C05 tier=thorough group=f64 bounds=shape=[2,3,2,2],cells=0..7,fill={nan,0,-1,inf} timeout=1200
 fold_h!(fold_2x3x2x2, 4, 24, [2, 3, 2, 2], 27);
 
-// @harness props=C05 tier=quick group=f64 bounds=shape=[3,1,2,2],cells=0..7,fill={nan,0,-1,inf} timeout=1200
+// @harness props=C05 tier=thorough group=f64 bounds=shape=[3,1,2,2],cells=0..7,fill={nan,0,-1,inf} timeout=1200
 fold_h!(fold_3x1x2x2, 4, 12, [3, 1, 2, 2], 15);
 
 //@@END FOLD_CASES@@
@@ -608,6 +608,27 @@ marginalize_h!(marginalize_2x1x2x2x2_rm420, 5, 16, 3, 2, 2, [2, 1, 2, 2, 2], [4,
 
 // @harness props=C04 tier=thorough group=f64 bounds=shape=[2,1,2,2,2],remove=[3,1](in-this-order),cells=0..7 timeout=1200
 marginalize_h!(marginalize_2x1x2x2x2_rm31, 5, 16, 2, 3, 8, [2, 1, 2, 2, 2], [3, 1], 19);
+
+// @harness props=C04 tier=quick group=f64 bounds=shape=[2,1,2,1,3],remove=[0,1,4,3](in-this-order),cells=0..7 timeout=1200
+marginalize_h!(marginalize_2x1x2x1x3_rm0143, 5, 12, 4, 1, 2, [2, 1, 2, 1, 3], [0, 1, 4, 3], 15);
+
+// @harness props=C04 tier=quick group=f64 bounds=shape=[2,1,2,1,3],remove=[0,1,3,2](in-this-order),cells=0..7 timeout=1200
+marginalize_h!(marginalize_2x1x2x1x3_rm0132, 5, 12, 4, 1, 3, [2, 1, 2, 1, 3], [0, 1, 3, 2], 15);
+
+// @harness props=C04 tier=quick group=f64 bounds=shape=[2,1,2,1,3],remove=[4,3,1,0](in-this-order),cells=0..7 timeout=1200
+marginalize_h!(marginalize_2x1x2x1x3_rm4310, 5, 12, 4, 1, 2, [2, 1, 2, 1, 3], [4, 3, 1, 0], 15);
+
+// @harness props=C04 tier=quick group=f64 bounds=shape=[2,1,2,1,3],remove=[3,4,0,1](in-this-order),cells=0..7 timeout=1200
+marginalize_h!(marginalize_2x1x2x1x3_rm3401, 5, 12, 4, 1, 2, [2, 1, 2, 1, 3], [3, 4, 0, 1], 15);
+
+// @harness props=C04 tier=quick group=f64 bounds=shape=[2,1,2,1,3],remove=[1,0,3,4](in-this-order),cells=0..7 timeout=1200
+marginalize_h!(marginalize_2x1x2x1x3_rm1034, 5, 12, 4, 1, 2, [2, 1, 2, 1, 3], [1, 0, 3, 4], 15);
+
+// @harness props=C04 tier=quick group=f64 bounds=shape=[2,1,2,1,3],remove=[0,1,2,3](in-this-order),cells=0..7 timeout=1200
+marginalize_h!(marginalize_2x1x2x1x3_rm0123, 5, 12, 4, 1, 3, [2, 1, 2, 1, 3], [0, 1, 2, 3], 15);
+
+// @harness props=C04 tier=quick group=f64 bounds=shape=[2,1,2,1,3],remove=[2,4,1,3](in-this-order),cells=0..7 timeout=1200
+marginalize_h!(marginalize_2x1x2x1x3_rm2413, 5, 12, 4, 1, 2, [2, 1, 2, 1, 3], [2, 4, 1, 3], 15);
 
 //@@END MARGINALIZE_CASES@@
 
